@@ -161,3 +161,21 @@ def apalache_inductive(module_path, workdir, cinit="ConstInit", timeout=900):
             res[name] = "unavailable"
     shutil.rmtree(os.path.join(workdir, "_apalache-out"), ignore_errors=True)
     return res
+
+
+def tlaps_check(module_path, workdir, timeout=600):
+    """Best-effort extra: run tlapm on a proof module.  Returns dict(status, obligations)."""
+    fresh_dir(workdir)
+    shutil.copy(module_path, workdir)
+    try:
+        p = run(["timeout", str(timeout), "tlapm", "--threads", "8", os.path.basename(module_path)], cwd=workdir, check=False, timeout=timeout + 30)
+    except (ToolError, FileNotFoundError):
+        return {"status": "unavailable"}
+    out = p.stdout or ""
+    m = re.search(r"All (\d+) obligations proved", out)
+    if m:
+        return {"status": "proved", "obligations": int(m.group(1))}
+    m = re.search(r"(\d+)/(\d+) obligations failed", out)
+    if m:
+        return {"status": "failed", "failed": int(m.group(1)), "obligations": int(m.group(2))}
+    return {"status": "unavailable"}
